@@ -313,10 +313,12 @@ def direct_cases(draw):
             elif k == 12:
                 ops.append(['self', draw(st.sampled_from(
                     ['stop', 'pause', 'reset']))])
-            elif i > 0:
+            elif n > 1:
+                # any other routine - also one that is running further up
+                # the chain of nested next() calls (then it must be refused)
+                j = draw(st.integers(0, n - 2))
                 ops.append(['other', draw(st.sampled_from(
-                    ['pause', 'stop', 'reset'])),
-                    draw(st.integers(0, i - 1))])
+                    ['pause', 'stop', 'reset'])), j if j < i else j + 1])
         bodies.append(ops)
     ops = []
     for _ in range(draw(st.integers(1, 25))):
